@@ -225,7 +225,8 @@ def _strategy_chain(shapes):
                 R2 = draw(st.sampled_from([1, 2])) if op == "multiply" else draw(st.sampled_from([1, Rc]))
                 if op == "multiply" and Rc * R2 > 6:
                     R2 = 1
-                mid.append({"op": op, "fkind": fk, "update_full": draw(st.booleans())})
+                mid.append({"op": op, "fkind": fk, "update_full": draw(st.booleans()),
+                            "g_zero": fk == "rank_one" and draw(st.sampled_from([False, False, False, True]))})
                 for nm, sh in pipes.factor_param_shapes(fk, R2, D).items():
                     shapes_[f"f{k}{nm}"] = sh
                 if op == "multiply":
@@ -273,6 +274,8 @@ def _strategy_cond(shapes):
             shapes_["SG"] = (1, Dy, Dy)
         case["P"] = {nm: draw(gen.arr(sh, -1.0, 1.0)) for nm, sh in sorted(shapes_.items())}
         case["isotropic"] = _isotropic(draw, case["P"])
+        if case["pipe"] in ("het_moments", "het_bound") and case["link"] in ("heaviside", "relu"):
+            case["dead_unit"] = draw(st.sampled_from([False, False, True]))
         if case["pipe"] == "condition_explicit_traced":
             # a partition of the Dx + Dy joint coordinates into Dx free and Dy conditioned-on ones, in arbitrary order
             perm = list(draw(st.permutations(list(range(Dx + Dy)))))
